@@ -1,24 +1,37 @@
 """C09 -- Retained snapshots are immutable and time travel is stable.
 
 Proof      : coq/Props/C09.v:
-             (a) C09_immutable over Model/Fault.v: once a version is committed, any later sequence of commits (appends, deletes
-                 that rewrite manifests into fresh files), failed / interrupted / crashed commits and rollbacks leaves the set of
-                 files it references unchanged and all present (write-once files);
-             (b) C09_by_timestamp / C09_delete_current / C09_by_id over Model/Meta.v (proved with C15): lookup by timestamp returns
-                 the most recently committed retained snapshot not newer than t (stable sort, non-decreasing timestamps), deleting
-                 the current snapshot repoints to the most recently committed survivor;
-             (c) collections: C09_collect_keeps_retained (C05's history theorem, retained-snapshot half) and, over Model/GCView.v,
-                 C09_retained_content_step / C09_retained_content_stable: the CONTENT a reader gets from a retained snapshot
-                 (manifests of its list, data files of each manifest, body of each data file) exists after every sequential history
-                 of Model/GCHist.v and is left exactly as it was by any further step -- a commit with ANY mix of appended, rewritten
-                 and dropped manifests (append, delete_files, one transaction doing both, with or without an expiry), expiry,
-                 deletion of any snapshot (oldest / intermediate / current), open transactions, planted orphans, file ageing,
-                 collections with any location / grace / clock / fault oracle -- for as long as it stays in the metadata;
+             (a) CONTENT, over Model/GCView.v on the histories of Model/GCHist.v: C09_retained_content_step /
+                 C09_retained_content_stable -- the content a reader gets from a retained snapshot (manifests of its list, data
+                 files of each manifest, body of each data file) exists after every sequential history and is left exactly as it
+                 was by any further step -- a commit with ANY mix of appended, rewritten and dropped manifests (append,
+                 delete_files, one transaction doing both, with or without an expiry), expiry, deletion of any snapshot (oldest /
+                 intermediate / current), open transactions, planted orphans, file ageing, collections with any location / grace /
+                 clock / fault oracle -- for as long as it stays in the metadata; C09_collect_keeps_retained is the PRESENCE half
+                 only (C05's history theorem);
+             (b) METADATA, over Model/Meta.v (proved with C15; its step function is proved equal to regenerated code there):
+                 C09_retained_snapshot_frozen -- across any continuation of any history a snapshot retained before and after has
+                 the timestamp, sequence number and manifest list (every manifest, every entry) it had (a delete_files builds a
+                 NEW snapshot with rewritten manifests; only the parent link of a survivor may be repointed);
+                 C09_by_id + C09_by_id_complete (exact and complete); C09_delete_current (most recently committed survivor,
+                 any clock); lookup by timestamp: C09_by_timestamp_characterised, for EVERY history -- greatest timestamp not
+                 newer than t, and among the retained snapshots carrying it the most recently committed (stable sort);
+                 the property's wording "the most recently committed retained snapshot not newer than t" is
+                 C09_by_timestamp_full, a Definition: proved under the extra hypothesis that commit timestamps never decrease
+                 (C09_by_timestamp_partial, hypothesis nondecreasing_ts) and REFUTED without it (C09_by_timestamp_refuted:
+                 snapshot 1 stamped 10, then snapshot 2 stamped 5, lookup at 10 returns 1);
+             (c) C09_version_refs_frozen over Model/Fault.v (formerly C09_immutable; renamed: it is not content immutability):
+                 under any later protocol steps, failed / interrupted / crashed commits and rollbacks the SET of file names a
+                 committed metadata version references is unchanged and all present -- a consequence of fresh names and of the
+                 model's rollback guard, which C04 ties to the regenerated handler tables;
              (d) the manifest lists a collection opens: Gen/GenGCRoots.v is REGENERATED from the loop of GarbageCollector.collect
                  over metadata.snapshots (translator/gen_gcroots.py, fail closed: the loop that opens lists must iterate exactly the
                  set that loop fills); C09_collect_roots_every_snapshot (the list of EVERY retained snapshot, for any parents and
                  operation labels), C09_collect_roots_ignore_lineage, C09_collect_opens_roots (the collector model of C05 opens
-                 exactly the regenerated roots, under every fault oracle).
+                 exactly the regenerated roots, under every fault oracle); C09_lookups_regenerated (the lookups of (b) are the
+                 functions of the source).
+             The three models (Fault.v, Meta.v, GCHist.v) are each tied to the code (C04 / C15 / C05 + this check's
+             correspondences), not to each other in Coq.
 Tie/oracle : random and directed sequential histories on the real library over {append, multi-file append, ONE transaction mixing
              delete_files / append_data / expire_snapshots (recorded under a single operation label), delete_files,
              expire_snapshots, retention-count pruning, delete_snapshot of the oldest / an intermediate / the parent of the current /
@@ -28,8 +41,12 @@ Tie/oracle : random and directed sequential histories on the real library over {
              half of the random histories run a collection after EVERY step; a third run every transaction on ONE reused
              Transaction object (failure sequences on it: oracle only, the handler tables are C04's model).  After every
              step and after every collection every retained snapshot is re-read by an independent reader and compared with the
-             content recorded when it was committed; lookup by id, lookup by timestamp (at, between and outside all snapshot
-             timestamps; equal timestamps included) and the repointed current snapshot are compared with an independent reference.
+             content recorded when it was committed; lookup by id (every retained snapshot is found with the timestamp, sequence
+             number and manifest list it was first seen with; removed ids are not found), lookup by timestamp (at, between and
+             outside all snapshot timestamps; equal timestamps included) and the repointed current snapshot are compared with an
+             independent reference.  Lookup by timestamp is judged on EVERY history, a third of which run on a clock that also steps
+             back, against the unconditional characterisation (greatest timestamp <= t, most recently committed among those
+             carrying it); on histories without a regression additionally against the property's wording.
              Correspondence: the timestamp lookups with Meta.v; EVERY collection of these histories (traced storage, frozen clock)
              with Model/GC.v gc_run (outcome, deleted set, keep sets, storage calls), the history invariant (hinvb), the content of
              every retained snapshot before and after the collection (Model/GCView.v on the model's own final store vs the real
@@ -44,28 +61,41 @@ from typing import Any, Dict, List, Optional, Tuple
 from harness.lib import coqbuild, protocol as P
 
 LEVEL = "proof"
-THEOREMS = ["C09_immutable", "C09_by_timestamp", "C09_delete_current", "C09_by_id", "C09_collect_keeps_retained",
-            "C09_retained_content_step", "C09_retained_content_stable", "C09_collect_roots_every_snapshot",
+THEOREMS = ["C09_retained_content_step", "C09_retained_content_stable", "C09_retained_snapshot_frozen",
+            "C09_by_id", "C09_by_id_complete", "C09_by_timestamp_characterised", "C09_by_timestamp_partial", "C09_by_timestamp_refuted",
+            "C09_delete_current", "C09_version_refs_frozen", "C09_collect_keeps_retained", "C09_collect_roots_every_snapshot",
             "C09_collect_roots_ignore_lineage", "C09_collect_opens_roots", "C09_lookups_regenerated"]
 MANIFEST_ENTRY = {
-    "level_text": "Immutability of committed versions under every later sequence of commits, failures and rollbacks proved in Coq "
-                  "(C09_immutable, unbounded); time-travel lookups and current-snapshot repointing proved over the metadata model "
-                  "(C09_by_timestamp with a stable sort, C09_delete_current, C09_by_id); collections keep every retained snapshot "
-                  "(C09_collect_keeps_retained) and the content a reader gets from a retained snapshot is unchanged by every step of every "
-                  "sequential history -- commits mixing appended / rewritten / dropped manifests, expiries, deletions of any snapshot, "
-                  "collections under any fault oracle (C09_retained_content_step, C09_retained_content_stable, induction over unbounded "
-                  "histories); the manifest lists a collection opens are regenerated from GarbageCollector.collect and proved to be the "
-                  "lists of ALL retained snapshots whatever their parent links and operation labels (C09_collect_roots_every_snapshot, "
-                  "C09_collect_roots_ignore_lineage, C09_collect_opens_roots); random and directed sequential histories on the real "
-                  "library (mixed delete+append(+expire) transactions, deletions of intermediate snapshots, retention pruning, a "
-                  "collection after every step) re-read every retained snapshot after every step and every collection with an "
-                  "independent reader; lookups compared with the model and an independent reference; every collection compared with the "
-                  "collector model, the content model and the regenerated roots",
-    "level_note": "trusted: Coq kernel; translator/gen_gcroots.py, translator/gen_norm.py; files are write-once (fresh names: valid_commit "
-                  "of Model/GCHist.v), so an unchanged file set means unchanged content -- the harness checks content (rows) directly; "
-                  "timestamps non-decreasing (DESIGN.md C09 interpretation); model ties for Meta.v and GC.v are those of C15 and C05 plus "
-                  "the per-collection correspondence of this check; metadata_manager.refresh() is an input of the collector model",
-    "technique": "Coq proofs (immutability invariant; stable-sort lookup; content-stability induction over histories with collections; "
+    "level_text": "The content a reader gets from a retained snapshot is unchanged by every step of every sequential history -- commits "
+                  "mixing appended / rewritten / dropped manifests, expiries, deletions of any snapshot, collections under any fault "
+                  "oracle (C09_retained_content_step, C09_retained_content_stable, induction over unbounded histories; "
+                  "C09_collect_keeps_retained is the presence half); over the metadata model a snapshot retained before and after any "
+                  "continuation keeps its timestamp, sequence number and every manifest entry (C09_retained_snapshot_frozen); lookup by "
+                  "id is exact and complete (C09_by_id, C09_by_id_complete); deleting the current snapshot repoints to the most recently "
+                  "committed survivor (C09_delete_current); lookup by timestamp is characterised for every history as greatest "
+                  "timestamp <= t, most recently committed among the snapshots carrying it (C09_by_timestamp_characterised); the "
+                  "property's wording 'most recently committed retained snapshot not newer than t' is proved only under non-decreasing "
+                  "commit timestamps (C09_by_timestamp_partial) and is refuted without that hypothesis (C09_by_timestamp_full is a "
+                  "Definition, C09_by_timestamp_refuted its counterexample: a clock that steps back); the file-name set referenced by a "
+                  "committed metadata version is frozen and present under failing commits and rollbacks (C09_version_refs_frozen, a "
+                  "consequence of the model's rollback guard, tied to the code by C04); the manifest lists a collection opens are "
+                  "regenerated from GarbageCollector.collect and proved to be the lists of ALL retained snapshots whatever their parent "
+                  "links and operation labels (C09_collect_roots_every_snapshot, C09_collect_roots_ignore_lineage, "
+                  "C09_collect_opens_roots); random and directed sequential histories on the real library (mixed "
+                  "delete+append(+expire) transactions, deletions of intermediate snapshots, retention pruning, a collection after "
+                  "every step, a third on a clock that also steps back) re-read every retained snapshot after every step and every "
+                  "collection with an independent reader; lookups compared with the model and independent references on every history; "
+                  "every collection compared with the collector model, the content model and the regenerated roots",
+    "level_note": "PARTIAL for the by-timestamp sentence of the property: with commit timestamps that decrease (wall clock stepping "
+                  "back, a second writer with a lagging clock) get_snapshot_by_timestamp returns the snapshot with the greatest "
+                  "timestamp <= t, not the most recently committed one (C09_by_timestamp_refuted; DESIGN.md C09 interpretation: clock "
+                  "regressions are outside the property's histories); trusted: Coq kernel; translator/gen_gcroots.py, "
+                  "translator/gen_norm.py; files are write-once (fresh names: valid_commit of Model/GCHist.v), so an unchanged file "
+                  "set means unchanged content -- the harness checks content (rows) directly; Model/Fault.v, Model/Meta.v and "
+                  "Model/GCHist.v are three models tied to the code separately (C04, C15, C05 and the per-collection correspondence of "
+                  "this check), not to each other in Coq; metadata_manager.refresh() is an input of the collector model",
+    "technique": "Coq proofs (content-stability induction over histories with collections; frozen-record and per-timestamp commit-order "
+                 "invariants of the metadata model; stable-sort lookup characterisation + refutation of the unconditional wording; "
                  "translator-regenerated root selection) + sequential-history differential check with per-collection model correspondence",
     "design_ref": "DESIGN.md section 5 C09",
 }
@@ -94,6 +124,17 @@ def ref_by_timestamp(state: Dict[str, Any], t: int) -> Optional[int]:
         if sid in state["snapshots"] and state["snapshots"][sid]["ts"] <= t:
             best = sid
     return best
+
+
+def ref_by_timestamp_any_clock(state: Dict[str, Any], t: int) -> Optional[int]:
+    """What C09_by_timestamp_characterised states, for ANY clock: among the retained snapshots not newer than t those with
+    the greatest timestamp, and among these the most recently committed (snapshot_log order).  Equal to ref_by_timestamp
+    whenever commit timestamps never decrease."""
+    cands = [sid for sid in state["log_order"] if sid in state["snapshots"] and state["snapshots"][sid]["ts"] <= t]
+    if not cands:
+        return None
+    top = max(state["snapshots"][sid]["ts"] for sid in cands)
+    return [sid for sid in cands if state["snapshots"][sid]["ts"] == top][-1]
 
 
 # Directed histories (op names; "expire_old" = expire everything but the current snapshot): the shapes in which a
@@ -193,7 +234,8 @@ def run_history(ctx, seed: int, length: int, script: Optional[List[str]] = None,
     stats = {"steps": 0, "appends": 0, "deletes": 0, "expires": 0, "delete_snapshots": 0, "collects": 0, "failed_commits": 0,
              "equal_timestamp_pairs": 0, "mixed_transactions": 0, "delete_and_append_transactions": 0,
              "intermediate_snapshot_deletions": 0, "collections_after_a_step": 0, "files_collected": 0,
-             "retained_snapshot_rereads": 0, "failed_commits_whose_pointer_write_landed": 0}
+             "retained_snapshot_rereads": 0, "failed_commits_whose_pointer_write_landed": 0, "by_id_lookups": 0,
+             "timestamp_lookups_where_a_clock_regression_separates_the_two_readings": 0}
     try:
         t = datashard.create_table(root, Schema(schema_id=1, fields=FIELDS))
         if opts.get("retention"):
@@ -201,6 +243,7 @@ def run_history(ctx, seed: int, length: int, script: Optional[List[str]] = None,
             new.properties[RET_KEY] = str(opts["retention"])
             t.metadata_manager.commit(t.metadata_manager.refresh(), new)
         recorded: Dict[int, Tuple[Tuple[str, ...], Tuple[int, ...]]] = {}
+        frozen: Dict[int, Tuple[Any, Any, Any]] = {}
         nextv = [0]
         shared: List[Any] = []
 
@@ -273,11 +316,22 @@ def run_history(ctx, seed: int, length: int, script: Optional[List[str]] = None,
                     recorded[sid] = content
                 elif recorded[sid] != content:
                     viol.append(f"after step {step} ({op}) retained snapshot {sid} changed: {recorded[sid]} -> {content}")
-            # lookups
+            # lookups: by id -- every retained snapshot is found, and it is the record that was committed (timestamp,
+            # sequence number, manifest list as first seen); an id that is not retained is not found
             for sid in state["snapshots"]:
                 got = t.snapshot_by_id(sid)
-                if got is None or got.snapshot_id != sid or got.manifest_list.lstrip("/") not in "".join([state["meta"]["snapshots"][i]["manifest_list"] for i in range(len(state["meta"]["snapshots"])) if state["meta"]["snapshots"][i]["snapshot_id"] == sid]):
-                    viol.append(f"after step {step} lookup by id {sid} returned {got}")
+                rec = next(x for x in state["meta"]["snapshots"] if x["snapshot_id"] == sid)
+                fields = (rec["timestamp_ms"], rec.get("sequence_number"), rec["manifest_list"])
+                first = frozen.setdefault(sid, fields)
+                if got is None or got.snapshot_id != sid or (got.timestamp_ms, got.sequence_number, got.manifest_list) != first or fields != first:
+                    viol.append(f"after step {step} lookup by id {sid} returned "
+                                f"{None if got is None else (got.snapshot_id, got.timestamp_ms, got.sequence_number, got.manifest_list)}, "
+                                f"metadata holds {fields}, committed as {first}")
+                stats["by_id_lookups"] += 1
+            for sid in [x for x in frozen if x not in state["snapshots"]][-3:]:
+                if t.snapshot_by_id(sid) is not None:
+                    viol.append(f"after step {step} lookup by id {sid} returned a snapshot that is no longer retained")
+                stats["by_id_lookups"] += 1
             tss = sorted({s["ts"] for s in state["snapshots"].values()})
             probes = set()
             for x in tss:
@@ -285,14 +339,23 @@ def run_history(ctx, seed: int, length: int, script: Optional[List[str]] = None,
             for tq in sorted(probes):
                 got = t.time_travel(timestamp=tq)
                 want = ref_by_timestamp(state, tq)
+                want_any = ref_by_timestamp_any_clock(state, tq)
                 gid = got.snapshot_id if got is not None else None
                 lookups.append({"snaps": [(sid, state["snapshots"][sid]["ts"]) for sid in state["snapshot_order"]],
                                 "log": [sid for sid in state["log_order"]], "t": tq, "impl": gid, "ref": want})
-                if gid != want and not backwards:
-                    # (with a clock that stepped back, "not newer than t" and "most recently committed" pull apart: the lookup is
-                    #  then compared with the model only -- DESIGN.md C09 interpretation; repointing and by-id are judged always)
+                shown = [(s_, state['snapshots'][s_]['ts']) for s_ in state['log_order'] if s_ in state['snapshots']]
+                if gid != want_any:
+                    # judged on EVERY history, whatever the clock did (C09_by_timestamp_characterised)
+                    viol.append(f"after step {step} time_travel(timestamp={tq}) returned {gid}; among the retained snapshots not newer than "
+                                f"it, the one with the greatest timestamp -- the most recently committed of those carrying it -- is "
+                                f"{want_any} (snapshots in commit order {shown})")
+                elif gid != want and not backwards:
+                    # (with a clock that stepped back, "not newer than t" and "most recently committed" pull apart:
+                    #  C09_by_timestamp_refuted; DESIGN.md C09 interpretation.  Without a regression they must agree.)
                     viol.append(f"after step {step} time_travel(timestamp={tq}) returned {gid}, the most recently committed retained "
-                                f"snapshot not newer than it is {want} (snapshots {[(s, state['snapshots'][s]['ts']) for s in state['log_order'] if s in state['snapshots']]})")
+                                f"snapshot not newer than it is {want} (snapshots {shown})")
+                if want != want_any:
+                    stats["timestamp_lookups_where_a_clock_regression_separates_the_two_readings"] += 1
             stats["equal_timestamp_pairs"] += sum(1 for a, b in zip(tss, tss[1:]) if a == b) + (len(state["snapshots"]) - len(tss))
             if op.startswith("delete_snapshot") and cur_before is not None and cur_before not in state["snapshots"]:
                 survivors = [sid for sid in state["log_order"] if sid in state["snapshots"]]
@@ -566,7 +629,8 @@ def run(ctx) -> None:
     ctx.trusted_base += ["harness/props/c09.py + harness/lib/protocol.py independent reader (json, fastavro, pyarrow)",
                          "translator/gen_gcroots.py (Python ast -> Gallina for the loop of collect() that selects the manifest lists to open)",
                          "harness/lib/gcsim.py (directory -> Model/GC.v store; traced storage; frozen clock) as in C05"]
-    ctx.assumptions += ["snapshot timestamps non-decreasing in commit order (DESIGN.md C09 interpretation)",
+    ctx.assumptions += ["for the wording 'most recently committed ... not newer than t' only: snapshot timestamps non-decreasing in commit "
+                        "order (C09_by_timestamp_partial; refuted without it; DESIGN.md C09 interpretation)",
                         "file names are fresh (uuid4 collisions excluded): valid_commit of Model/GCHist.v"]
     ctx.proofs(THEOREMS, gen_files=["GenMeta.v", "GenNorm.v", "GenGCRoots.v"])
     ctx.allow_axioms([])
